@@ -94,12 +94,16 @@ func (p *Provider) Run(ctx context.Context, deps core.ProviderDeps) (err error) 
 }
 
 func (p *Provider) runFullScan(ctx context.Context) error {
+	chosenNum := uint(0) // Decoder counts all ammo, so limit of chosen ammo is counted here.
 	for {
 		if err := ctx.Err(); err != nil {
 			if !errors.Is(err, context.Canceled) {
 				err = xerrors.Errorf("error from context: %w", err)
 			}
 			return err
+		}
+		if len(p.Config.ChosenCases) > 0 && p.Config.Limit != 0 && chosenNum >= p.Config.Limit {
+			return nil
 		}
 		ammo, err := p.Decoder.Scan(ctx)
 		if err != nil {
@@ -111,6 +115,7 @@ func (p *Provider) runFullScan(ctx context.Context) error {
 		if !confutil.IsChosenCase(ammo.Tag(), p.Config.ChosenCases) {
 			continue
 		}
+		chosenNum++
 
 		select {
 		case <-ctx.Done():
